@@ -163,3 +163,64 @@ def fit_case(spec, tag=''):
         case['outcome'] = E.outcome_code(e)
         case['meta']['exc'] = E.exc_text(e)
     return case
+
+
+# ---------------------------------------------------------------------------------------------
+# spec -> code: a finished state of Chained.tla (tree, counts, threshold, final leaders) replayed
+# ---------------------------------------------------------------------------------------------
+def spec_from_state(st, self_member=True):
+    """The hierarchy / sample of one TLC state as a driver spec (nodes are named n1..nM)."""
+    par, lvl, cnt = list(st['tree']['par']), list(st['tree']['lvl']), list(st['cnt'])
+    M = len(par)
+    name = {i + 1: 'n%d' % (i + 1) for i in range(M)}
+    levels = []
+    for li in range(1, max(lvl) + 1):
+        d = {}
+        for g in range(1, M + 1):
+            if lvl[g - 1] == li:
+                mem = [name[c] for c in range(1, M + 1) if par[c - 1] == g]
+                if mem:
+                    d[name[g]] = mem + ([name[g]] if self_member else [])
+        # the class wants every value of a level to be known from the level before: a node attached to a
+        # group more than one level up (or a first-level value without any group) is carried as its own group
+        for c in range(1, M + 1):
+            g = par[c - 1]
+            if (g and lvl[c - 1] < li < lvl[g - 1]) or (not g and lvl[c - 1] == 0 and li == 1):
+                d.setdefault(name[c], [name[c]])
+        if d:
+            levels.append(d)
+    vals = [name[i + 1] for i, c in enumerate(cnt) for _ in range(c)] + [None] * (st['n'] - sum(cnt))
+    rnd = random.Random(sum((i + 1) * c for i, c in enumerate(cnt)) + 7 * st['n'])
+    rnd.shuffle(vals)
+    y = [i % 2 for i in range(len(vals))]
+    nodes = [name[i + 1] for i in range(M)]
+    return {'cls': 'ChainedDiscretizer', 'features': {'f': {'kind': 'categ', 'values': vals}}, 'y': y,
+            'chained_orders': levels,
+            'params': {'min_freq': list(st['mf']), 'unknown_handling': 'raise', 'copy': True},
+            'hier': {'nodes': nodes, 'par': {name[i + 1]: name[p] for i, p in enumerate(par) if p}, 'lvl': {name[i + 1]: l for i, l in enumerate(lvl)}}}
+
+
+def replay_state(st):
+    """-> list of (clause, explanation); empty = the real class ended where the specification does"""
+    import contextlib
+    import io
+    if sum(st['cnt']) == 0:
+        return []          # nothing but missing rows: outside the hierarchy's business
+    spec = spec_from_state(st)
+    with contextlib.redirect_stdout(io.StringIO()):
+        case = fit_case(spec, 'replay')
+    if case['outcome'] != 0:
+        return [('C18_spurious_rejection' if case['outcome'] == 1 else 'C18_internal_error', str(case['meta'].get('exc'))[:200])]
+    if case['removed']:
+        n, mf = st['n'], st['mf']
+        if any(c * mf[1] >= mf[0] * n for c in st['cnt']):
+            return [('C18_feature_dropped_although_a_value_is_frequent', f'cnt={st["cnt"]} n={n} mf={mf}')]
+        return []
+    fails = []
+    if list(case['leader']) != list(st['leader']):
+        fails.append(('C18_leaders_differ_from_specification', f'real leaders {case["leader"]}, Chained.tla {list(st["leader"])}'))
+    for rn, oc in case['out']:
+        if rn and oc != st['leader'][rn - 1]:
+            fails.append(('C18_transform_not_leader', f'a row holding node {rn} is transformed to {oc}, leader {st["leader"][rn - 1]}'))
+            break
+    return fails
